@@ -2,8 +2,11 @@ package srv
 
 import (
 	"context"
+	"crypto/tls"
 	"errors"
 	"fmt"
+	"io"
+	"log"
 	"net"
 	"net/http"
 	"strings"
@@ -25,6 +28,7 @@ type WSServer struct {
 	hs    *http.Server
 	mu    sync.Mutex
 	raw   map[string]net.Conn // accepted TCP connections by remote address
+	TLS   bool
 }
 
 type capListener struct {
@@ -42,7 +46,20 @@ func (l capListener) Accept() (net.Conn, error) {
 	return c, err
 }
 
-func ListenWS() (*WSServer, error) {
+func ListenWS() (*WSServer, error) { return listenWS(nil) }
+
+// ListenWSS serves wss://localhost:port/xmpp; the certificate is chosen per TLS handshake by getCert.
+func ListenWSS(getCert func() *tls.Certificate) (*WSServer, error) {
+	return listenWS(&tls.Config{GetCertificate: func(*tls.ClientHelloInfo) (*tls.Certificate, error) {
+		c := getCert()
+		if c == nil {
+			return nil, errors.New("srv: no certificate")
+		}
+		return c, nil
+	}})
+}
+
+func listenWS(tc *tls.Config) (*WSServer, error) {
 	var l net.Listener
 	var err error
 	for i := 0; i < 120; i++ {
@@ -56,6 +73,11 @@ func ListenWS() (*WSServer, error) {
 		return nil, err
 	}
 	s := &WSServer{L: l, Addr: "ws://" + l.Addr().String() + "/xmpp", conns: make(chan *WSConn, 8), raw: map[string]net.Conn{}}
+	if tc != nil {
+		_, port, _ := net.SplitHostPort(l.Addr().String())
+		s.Addr = "wss://localhost:" + port + "/xmpp"
+		s.TLS = true
+	}
 	mux := http.NewServeMux()
 	mux.HandleFunc("/xmpp", func(w http.ResponseWriter, r *http.Request) {
 		c, err := websocket.Accept(w, r, &websocket.AcceptOptions{Subprotocols: []string{"xmpp"}})
@@ -66,12 +88,16 @@ func ListenWS() (*WSServer, error) {
 		s.mu.Lock()
 		rc := s.raw[r.RemoteAddr]
 		s.mu.Unlock()
-		wc := &WSConn{C: c, done: make(chan struct{}), Raw: rc}
+		wc := &WSConn{C: c, done: make(chan struct{}), Raw: rc, TLS: s.TLS}
 		s.conns <- wc
 		<-wc.done // the handler must not return while the connection is in use
 	})
-	s.hs = &http.Server{Handler: mux}
-	go s.hs.Serve(capListener{l, s})
+	s.hs = &http.Server{Handler: mux, ErrorLog: log.New(io.Discard, "", 0)}
+	if tc != nil {
+		go s.hs.Serve(tls.NewListener(capListener{l, s}, tc))
+	} else {
+		go s.hs.Serve(capListener{l, s})
+	}
 	return s, nil
 }
 
@@ -87,6 +113,7 @@ func (s *WSServer) Accept(timeout time.Duration) (*WSConn, error) {
 func (s *WSServer) Close() { s.hs.Close() }
 
 type WSConn struct {
+	TLS  bool
 	Raw  net.Conn // the TCP connection underneath (for abrupt drops)
 	C    *websocket.Conn
 	done chan struct{}
@@ -132,7 +159,7 @@ func (c *WSConn) ReadElem(timeout time.Duration) (*Elem, error) {
 		}
 		return nil, err
 	}
-	e := &Elem{Kind: "elem", Raw: b, At: time.Now(), Attr: map[string]string{}}
+	e := &Elem{Kind: "elem", Raw: b, At: time.Now(), Attr: map[string]string{}, Enc: c.TLS}
 	s := strings.TrimSpace(string(b))
 	if s == "" {
 		e.Kind = "ws"
@@ -225,4 +252,43 @@ func (c *WSConn) NegotiateWS(o NegotiateOpts, timeout time.Duration) (*Negotiate
 		return res, nil
 	}
 	return res, fmt.Errorf("negotiate(ws): expected initial presence, got %s", e)
+}
+
+// WSFrames turns what the scripted server would write on a TCP stream (stream header, features, a reply,
+// the closing tag) into the text frames of the WebSocket framing: <open/>, <close/>, one element per frame
+// with the namespaces a stand-alone element needs.
+func WSFrames(s string) []string {
+	var out []string
+	s = strings.TrimPrefix(s, "<?xml version='1.0'?>")
+	if strings.HasPrefix(s, "<stream:stream ") {
+		i := strings.IndexByte(s, '>')
+		hdr := s[:i+1]
+		s = s[i+1:]
+		id := ""
+		if j := strings.Index(hdr, "id='"); j >= 0 {
+			id = hdr[j+4:]
+			id = id[:strings.IndexByte(id, '\'')]
+		}
+		out = append(out, wsOpen(id))
+	}
+	if s == "" {
+		return out
+	}
+	if s == "</stream:stream>" {
+		return append(out, "<close xmlns='"+NSFraming+"'/>")
+	}
+	fix := func(prefix, with string) {
+		if strings.HasPrefix(s, prefix) {
+			end := strings.IndexByte(s, '>')
+			if end > 0 && !strings.Contains(s[:end], with[:strings.IndexByte(with, '=')+1]) {
+				s = prefix + " " + with + s[len(prefix):]
+			}
+		}
+	}
+	fix("<stream:features", "xmlns:stream='"+NSStream+"'")
+	fix("<stream:error", "xmlns:stream='"+NSStream+"'")
+	fix("<iq", "xmlns='"+NSClient+"'")
+	fix("<message", "xmlns='"+NSClient+"'")
+	fix("<presence", "xmlns='"+NSClient+"'")
+	return append(out, s)
 }
